@@ -167,11 +167,12 @@ fn probe_image(dir: &Path, cfg: &SpecCfg, names: &Names, cont_key: &str, cont_va
     let h = kv.get_handle();
     let map = read_all(&h, names);
     let recovery_calls: Vec<Value> = shim::stop().iter().filter(|c| c.mutating()).map(sys_event).collect();
-    // every file that existed before the open must be byte-identical after it
+    // every file that existed before the open and still exists after it must be byte-identical (recovery may
+    // remove files as a whole - what that does to the contents is judged by the reads -, it may not rewrite them)
     let bytes_after = file_bytes(dir);
     let modified: Vec<String> = bytes_before
         .iter()
-        .filter(|(n, b)| bytes_after.get(*n) != Some(*b))
+        .filter(|(n, b)| bytes_after.get(*n).map(|a| a != *b).unwrap_or(false))
         .map(|(n, _)| n.clone())
         .collect();
     let after_open = ids_in(dir);
